@@ -7,7 +7,7 @@ PAR="${1:-1}"
 ls checks/c[0-9][0-9].py | sed 's/.*\/c/C/; s/\.py//' | xargs -P "$PAR" -I{} sh -c 'VERIF_SEED=1 bin/check {} --tier quick > /var/tmp/final_{}.log 2>&1; echo "{} rc=$?"'
 echo "--- VIOLATION / NOTE lines:"; grep -h "^VIOLATION\|^NOTE" /var/tmp/final_C*.log | cut -c1-300
 echo "--- KNOWN-FINDING lines: $(grep -h '^KNOWN-FINDING' /var/tmp/final_C*.log | wc -l)"
-python3 tools/asbuilt.py > /dev/null; python3 tools/seed_table.py > /dev/null; python3 tools/mkmanifest.py > /dev/null
+python3 tools/asbuilt.py > /dev/null; python3 tools/seed_table.py > /dev/null; python3 tools/seed_paragraphs.py > /dev/null; python3 tools/mkmanifest.py > /dev/null
 python3-vt - <<'P'
 import json, glob, jsonschema
 m = json.load(open('/verif/MANIFEST.json')); jsonschema.validate(m, json.load(open('/root/.vp/MANIFEST.schema.json'))); print('MANIFEST ok', len(m['checks']), 'checks', 'not_applicable', m.get('not_applicable'))
